@@ -24,6 +24,7 @@ type RepositoryMongo struct {
 func New(ctx iface.OrdaContext, conf *Config) (*RepositoryMongo, errors.OrdaError) {
 
 	option := options.Client().ApplyURI(conf.getConnectionString())
+	applySimClientOptions(option)
 	if conf.CertFile != "" {
 		tlsConfig, err := getCustomTLSConfig(ctx, conf.CertFile)
 		if err != nil {
